@@ -430,8 +430,33 @@ func GenTypes(t *rapid.T, o *Opts) *Spec {
 			}
 		}
 	}
+	// a diamond in the import graph: the analysed package imports two packages, one of which imports the other
+	var diamond []*tinfo
+	if o.Diamonds && len(g.spec.Pkgs) >= 3 && rapid.Bool().Draw(t, "diamond") {
+		i := rapid.IntRange(1, len(g.spec.Pkgs)-2).Draw(t, "diamondUpper")
+		j := rapid.IntRange(i+1, len(g.spec.Pkgs)-1).Draw(t, "diamondLower")
+		upper, lower := g.spec.Pkgs[i], g.spec.Pkgs[j]
+		var targets []*tinfo
+		for _, ti := range g.types {
+			if ti.pkg == lower && ti.exported && ti.d != nil && (ti.cat == "struct" || ti.cat == "enum" || ti.cat == "basic" || (ti.cat == "union" && o.ForeignUnions)) && ti.d.Kind != KGeneric && !ti.unsupp {
+				targets = append(targets, ti)
+			}
+		}
+		if len(targets) > 0 && g.imports(upper, lower) {
+			tg := targets[rapid.IntRange(0, len(targets)-1).Draw(t, "diamondTarget")]
+			link := &Decl{Kind: KStruct, Name: g.freshName(upper, "diamondLink", true), Fields: []*Field{{Name: "Ref", Type: g.refTo(upper, tg)}, {Name: "N", Type: Basic("int")}}}
+			li := g.newDecl(upper, upper.Files[0], link, &tinfo{cat: "struct", hasUnion: tg.hasUnion || tg.cat == "union"})
+			diamond = []*tinfo{tg, li}
+			o.class("graph:diamond_import")
+		}
+	}
 	n := rapid.IntRange(o.MinDecls, o.MaxDecls).Draw(t, "nDecls")
 	g.fillPackage(root, root.Files[0], root.Files[1], n, true)
+	if len(diamond) == 2 {
+		h := &Decl{Kind: KStruct, Name: g.freshName(root, "diamondHolder", true), Fields: []*Field{
+			{Name: "Direct", Type: g.refTo(root, diamond[0])}, {Name: "Through", Type: g.refTo(root, diamond[1])}}}
+		g.newDecl(root, root.Files[0], h, &tinfo{cat: "struct", hasUnion: diamond[0].hasUnion || diamond[0].cat == "union"})
+	}
 	if userTime != nil {
 		h := &Decl{Kind: KStruct, Name: g.freshName(root, "userTimeHolder", true), Fields: []*Field{{Name: "At", Type: g.refTo(root, userTime)}, {Name: "N", Type: Basic("int")}}}
 		g.newDecl(root, root.Files[0], h, &tinfo{cat: "struct"})
